@@ -35,24 +35,38 @@ Record params := {
   p_greq : Z -> Z -> Z;                    (* gzip loop max_length : cap total *)
   p_gover : Z -> Z -> bool;                (* gzip loop `total > max_output_size` : cap total *)
   p_gover_tail : Z -> Z -> bool;           (* gzip flush tail `total > max_output_size` : cap total *)
-  p_gz_eof_check : bool                    (* `if not do.eof: raise DecompressionError` present after the flush (both branches) *)
+  p_gz_eof_check : bool;                   (* `if not do.eof: raise DecompressionError` present after the flush (both branches) *)
+  p_gz_eof_break : bool                    (* the loop's break test is `do.eof or (not chunk and not do.unconsumed_tail)` *)
 }.
 
-Definition DECOMPRESS_CHUNK_BYTES : Z := 65536.
 Definition ZSTD_CONTENTSIZE_UNKNOWN : Z := 18446744073709551615.
 
-Definition std_params (eof_check : bool) : params := {|
-  p_zstd_level := 3;
-  p_gzip_level := 6;
-  p_gzip_wbits := 31;
+(* the values no theorem depends on (beyond 1 <= chunk): they may change in the source without
+   touching the proofs; today: eof guard absent, 65536, 3, 6, 31 *)
+Record knobs := {
+  k_eof : bool;       (* `if not do.eof: raise DecompressionError` present in _decompress_body_gzip *)
+  k_eof_break : bool; (* `do.eof or` present in the break test of its loop *)
+  k_chunk : Z;        (* _DECOMPRESS_CHUNK_BYTES *)
+  k_zstd_level : Z;   (* _DEFAULT_ZSTD_LEVEL *)
+  k_gzip_level : Z;   (* _DEFAULT_GZIP_LEVEL *)
+  k_wbits : Z         (* _GZIP_WBITS *)
+}.
+
+Definition today : knobs := {| k_eof := false; k_eof_break := false; k_chunk := 65536; k_zstd_level := 3; k_gzip_level := 6; k_wbits := 31 |}.
+
+Definition std_params (K : knobs) : params := {|
+  p_zstd_level := k_zstd_level K;
+  p_gzip_level := k_gzip_level K;
+  p_gzip_wbits := k_wbits K;
   p_sentinels := [-1; ZSTD_CONTENTSIZE_UNKNOWN];
   p_refuse := fun declared cap => match declared with None => false | Some d => d >? cap end;
-  p_zreq := fun cap total => Z.min DECOMPRESS_CHUNK_BYTES (cap - total + 1);
+  p_zreq := fun cap total => Z.min (k_chunk K) (cap - total + 1);
   p_zover := fun cap total => total >? cap;
-  p_greq := fun cap total => Z.min DECOMPRESS_CHUNK_BYTES (cap - total + 1);
+  p_greq := fun cap total => Z.min (k_chunk K) (cap - total + 1);
   p_gover := fun cap total => total >? cap;
   p_gover_tail := fun cap total => total >? cap;
-  p_gz_eof_check := eof_check
+  p_gz_eof_check := k_eof K;
+  p_gz_eof_break := k_eof_break K
 |}.
 
 (* ---------- the codec libraries, as seen from _codec.py ---------- *)
@@ -74,8 +88,8 @@ Record env := {
   (* do.eof once the whole input has been fed: the end-of-stream marker was seen *)
   gz_eof : bytes -> bool;
   (* i-th do.decompress(inbuf, n) with [rest] still undelivered:
-     (length returned, unconsumed_tail non-empty afterwards) *)
-  gz_dec : bytes -> nat -> Z -> bytes -> Z * bool
+     (length returned, unconsumed_tail non-empty afterwards, do.eof afterwards) *)
+  gz_dec : bytes -> nat -> Z -> bytes -> Z * bool * bool
 }.
 
 (* ---------- _zstd_content_size ---------- *)
@@ -138,7 +152,7 @@ Definition gz_finish (P : params) (eof : bool) (cap : Z) (total : Z) (acc : list
       else (if eof_fail then CodecErr else Ok (concat (rev (rest :: acc))), rev reqs)
   end.
 
-Fixpoint gz_loop (P : params) (dec : nat -> Z -> bytes -> Z * bool) (eof : bool) (cap : Z)
+Fixpoint gz_loop (P : params) (dec : nat -> Z -> bytes -> Z * bool * bool) (eof : bool) (cap : Z)
          (fuel : nat) (i : nat) (total : Z) (acc : list bytes) (rest : bytes)
          (rem_ne tail_ne : bool) (reqs : list Z) : result * list Z :=
   match fuel with
@@ -147,16 +161,18 @@ Fixpoint gz_loop (P : params) (dec : nat -> Z -> bytes -> Z * bool) (eof : bool)
       if negb (rem_ne || tail_ne) then gz_finish P eof cap total acc rest reqs    (* while remaining or do.unconsumed_tail *)
       else
         let n := p_greq P cap total in
-        let '(k, tail') := dec i n rest in
+        let '(k, tail', eof_now) := dec i n rest in
         let m := Z.to_nat k in
         let chunk := firstn m rest in
         match chunk with
         | [] =>
-            if negb tail' then gz_finish P eof cap total acc (skipn m rest) (n :: reqs)   (* not chunk and not tail: break *)
+            (* [do.eof or] (not chunk and not do.unconsumed_tail): break *)
+            if (p_gz_eof_break P && eof_now) || negb tail' then gz_finish P eof cap total acc (skipn m rest) (n :: reqs)
             else gz_loop P dec eof cap fuel' (S i) total acc (skipn m rest) false tail' (n :: reqs)
         | _ :: _ =>
             let total' := total + len chunk in
             if p_gover P cap total' then (LimitErr, rev (n :: reqs))
+            else if p_gz_eof_break P && eof_now then gz_finish P eof cap total' (chunk :: acc) (skipn m rest) (n :: reqs)
             else gz_loop P dec eof cap fuel' (S i) total' (chunk :: acc) (skipn m rest) false tail' (n :: reqs)
         end
   end.
@@ -228,7 +244,7 @@ Definition oneshot_of (d : bytes) (o : option (option bytes)) : result :=
   match o with None => CodecErr | Some None => Ok d | Some (Some b) => Ok b end.
 
 Definition nth_read (l : list Z) (i : nat) : Z := nth i l 0.
-Definition nth_dec (l : list (Z * bool)) (i : nat) : Z * bool := nth i l (0, false).
+Definition nth_dec (l : list (Z * bool * bool)) (i : nat) : Z * bool * bool := nth i l (0, false, false).
 
 Fixpoint bytes_eqb' (a b : bytes) : bool :=
   match a, b with
@@ -250,10 +266,10 @@ Definition verdict_of (d : bytes) (r : result) : verdict :=
 
 (* one call: (((code, cap), (declared_raw, oneshot, reads)), (data_nonempty, eof, decs)) *)
 Definition sub_in : Type :=
-  N * option Z * (Z * option (option bytes) * list Z) * (bool * bool * list (Z * bool)).
+  N * option Z * (Z * option (option bytes) * list Z) * (bool * bool * list (Z * bool * bool)).
 
 Definition env_of (d : bytes) (frame : bytes) (decl : Z) (one : option (option bytes))
-           (reads : list Z) (eof : bool) (decs : list (Z * bool)) : env := {|
+           (reads : list Z) (eof : bool) (decs : list (Z * bool * bool)) : env := {|
     zstd_comp := fun _ _ => frame;
     zstd_declared := fun _ => decl;
     zstd_oneshot := fun _ => oneshot_of d one;
@@ -266,22 +282,22 @@ Definition env_of (d : bytes) (frame : bytes) (decl : Z) (one : option (option b
   |}.
 
 (* d = what the library's streaming decoder yields for the frame (for identity: the data) *)
-Definition run_sub (eofc : bool) (d : bytes) (c : sub_in) : verdict * list Z :=
+Definition run_sub (K : knobs) (d : bytes) (c : sub_in) : verdict * list Z :=
   let '(code, cap, (decl, one, reads), (data_ne, eof, decs)) := c in
   let frame : bytes := if data_ne then [0%N] else [] in
   let E := env_of d frame decl one reads eof decs in
   let r := match enc_of code with
-           | Identity => decompress_tr (std_params eofc) E Identity d cap
-           | e => decompress_tr (std_params eofc) E e frame cap
+           | Identity => decompress_tr (std_params K) E Identity d cap
+           | e => decompress_tr (std_params K) E e frame cap
            end in
   (verdict_of d (fst r), snd r).
 
 (* a group of calls on frames of the same payload (expanded once) *)
 Definition case_in : Type := list seg * list sub_in.
 
-Definition run_case (eofc : bool) (c : case_in) : list (verdict * list Z) :=
+Definition run_case (K : knobs) (c : case_in) : list (verdict * list Z) :=
   let d := expand (fst c) in
-  map (run_sub eofc d) (snd c).
+  map (run_sub K d) (snd c).
 
 Definition verdict_eqb (a b : verdict) : bool :=
   match a, b with
